@@ -40,7 +40,7 @@ CHECKS = {
    design="3/C15"),
  "C10": dict(engine="E2 e2e", category="model_checking", technique="explicit-state exploration of command histories over self-signalling programs; oracle = reference trace with recorded signal deliveries + handler counters",
    text="Programs raise SIGUSR1/SIGUSR2 (non-quiet) and SIGALRM (quiet) on themselves, one of them with two signals blocked, raised and unblocked together; every history of breakpoints + start/continue/stepi/step/next/finish up to depth 5 (quick) / 7 is executed: each non-quiet signal must be reported exactly once as a signal stop for the receiving thread in the state just before its handler (or cut a step short and say so), quiet ones never, and the handler counters printed at exit must equal the native run whatever mix of continue and step commands was used (delivered exactly once).",
-   note="Real kernel, deterministic self-signalling only: externally timed signals, multi-threaded targets and SIGINT (transparent: the native run differs by design) are not covered; the simulated-kernel engine E1 of the design is not built.",
+   note="Real kernel. Signals are raised by the program on itself, plus SIGINT sent from outside while the program is stopped (must be reported, never delivered: the SIGINT handler counter is part of the output). Signals arriving while the program runs freely, multi-threaded targets and bursts from outside are not covered; the simulated-kernel engine E1 of the design is not built.",
    design="3/C10"),
  "C13": dict(engine="E5 dap", category="model_checking", technique="explicit-state exploration of DAP breakpoint-request histories on the real adapter, oracle = reference trace filtered by the latest sets and option semantics",
    text="Histories of initialize/launch/configurationDone/continue/restart interleaved with setBreakpoints (subsets of two lines x {plain, condition true/false/data-query, hitCondition 2 / >=2, logMessage}), setFunctionBreakpoints and setInstructionBreakpoints, each tried before launch, before configurationDone, while stopped and after restart (depth 5 quick / 7); after every resume the stop on the wire and the pc read from /proc must be the next arrival of the reference trace at a location of the latest sets that the options allow; logpoints produce one output per hit; verified = a patch exists in /proc/pid/mem.",
